@@ -13,6 +13,7 @@ import HawkModel.Drv.Oom
 import HawkModel.Drv.Sed
 import HawkModel.Drv.Ctx
 import HawkModel.Drv.ReadIo
+import HawkModel.Drv.Crash
 
 def main (args : List String) : IO UInt32 := do
   match args with
@@ -31,4 +32,5 @@ def main (args : List String) : IO UInt32 := do
   | "sed" :: _ => Hawk.Drv.Sed.main; return 0
   | "ctx" :: _ => Hawk.Drv.Ctx.main; return 0
   | "readio" :: _ => Hawk.Drv.ReadIo.main; return 0
+  | "crash" :: _ => Hawk.Drv.Crash.main; return 0
   | _ => IO.eprintln "usage: hawkdrv <area>"; return 2
